@@ -468,6 +468,9 @@ func (w *gsWorld) exec(r *Run, line string) string {
 			}
 			cp := append([]string{"new pp"}, w.lines...)
 			tag := "[C16]"
+			if w.faulted > 0 {
+				tag = "[C16,C07] (a storage fault was injected and the block retried earlier in this world)"
+			}
 			if w.removalReorged {
 				tag = "[C16] F4 a GER removal that was reorged away is not undone:"
 			}
